@@ -170,3 +170,38 @@ impl Ratio {
         self.n >= x * &self.d
     }
 }
+
+/// Liquidity amounts whose exact token cost on [lower, upper) at the given price sits just above 2^64 or 2^128 (for
+/// either token): a correct implementation refuses them; one that keeps only the low bits of a wide result sells a
+/// huge liquidity for next to nothing.
+pub fn limit_liquidities(tick_current: i32, sqrt_price: u128, lower: i32, upper: i32) -> Vec<u128> {
+    let (pl, pu) = (sqrt_price_of_tick(lower), sqrt_price_of_tick(upper));
+    let pr = sqrt_price.clamp(pl, pu);
+    let mut sides: Vec<(BigUint, BigUint)> = Vec::new();
+    if tick_current < upper {
+        let bot = if tick_current < lower { pl } else { pr };
+        if pu > bot {
+            sides.push((two64() * bu(pu - bot), bu(pu) * bu(bot)));
+        }
+    }
+    if tick_current >= lower {
+        let top = if tick_current < upper { pr } else { pu };
+        if top > pl {
+            sides.push((bu(top - pl), two64()));
+        }
+    }
+    let mut out = Vec::new();
+    for (n, d) in sides {
+        for k in [bu(u64::MAX as u128), bu(u128::MAX)] {
+            let base = (k * &d) / &n + BigUint::from(1u8);
+            for extra in [BigUint::from(0u8), (&d / &n) * BigUint::from(1000u32) + BigUint::from(7u8)] {
+                if let Some(v) = to_u128(&(&base + extra)) {
+                    if v > 0 && v < (1u128 << 127) {
+                        out.push(v);
+                    }
+                }
+            }
+        }
+    }
+    out
+}
